@@ -113,8 +113,9 @@ class Policy:
 
   def __init__(self, kind, rng=None, p=0.05, depth=2, nthreads=2, est_steps=1000, preempt=None):
     self.kind, self.rng, self.p = kind, rng, p
-    self.preempt = preempt  # (thread, step_in_thread, target)
+    self.preempt = preempt  # (thread, step_in_thread, target); for kind 'preempt2' a list of such triples, each firing once
     self.fired = False
+    self.fired2 = set()
     if kind == 'pct':
       self.prio = list(range(nthreads))
       rng.shuffle(self.prio)
@@ -129,6 +130,8 @@ class Policy:
       return self.rng.choice(runnable)
     if self.kind == 'preempt' and self.preempt[0] in runnable:
       return self.preempt[0]
+    if self.kind == 'preempt2' and self.preempt[0][0] in runnable:
+      return self.preempt[0][0]
     return runnable[0]
 
   def at_step(self, me, my_step, global_step, runnable):
@@ -152,6 +155,12 @@ class Policy:
       if not self.fired and me == t and my_step == k and j in others:
         self.fired = True
         return j
+      return None
+    if self.kind == 'preempt2':
+      for i, (t, k, j) in enumerate(self.preempt):
+        if i not in self.fired2 and me == t and my_step == k and j in others:
+          self.fired2.add(i)
+          return j
       return None
     return None
 
